@@ -350,7 +350,7 @@ func TestVerifC09BackoffFrozen(t *testing.T) {
 	st := vstat.New("C09", "ratelimit.backoff.frozen",
 		"rapid histories (query with optional counted response | allowlist Update | invalid address) against Backoff with 1h intervals (time frozen) vs an exact per-subnet counter model, plus replay of one subnet's projection on a fresh limiter (isolation); non-trivial = some query was dropped by the window or by backoff and a later query passed (other subnet, or allowlisted since), distinct by (config, history)",
 		"dropped-then-later-pass", "backoff-entered", "dropped-in-backoff", "any-refused", "any-refused-allowlisted", "allowlisted-pass",
-		"allowlisted-in-flooded-subnet", "update-flips-verdict", "large-response-counted", "response-exactly-estimate", "response-one-below-estimate", "same-subnet-other-host", "neighbour-subnet-unaffected", "v6", "zero-address", "allowlist-error", "isolation-replay")
+		"allowlisted-in-flooded-subnet", "update-flips-verdict", "large-response-counted", "response-exactly-estimate", "response-one-below-estimate", "same-subnet-other-host", "neighbour-subnet-unaffected", "v6", "zero-address", "allowlist-error", "client-ipv4-mapped", "isolation-replay")
 	st.Finish(t)
 
 	ctx := context.Background()
@@ -366,6 +366,16 @@ func TestVerifC09BackoffFrozen(t *testing.T) {
 		fal := &vc09FailingAllowlist{inner: al}
 		l := c.build(fal)
 		m := &vc09FrozenModel{c: c, persistent: persistent, dynamic: dynamic, keys: map[string]*vc09FrozenKey{}}
+		// Client addresses in IPv4-mapped form (::ffff:a.b.c.d) never reach the
+		// limiter in the service (both middlewares unmap the remote address),
+		// and neither the documentation nor the callers say which family's
+		// settings apply to one given directly.  Two readings are followed: m
+		// treats it as the IPv6 address it formally is (what the code does), mB
+		// as the IPv4 client it stands for (one window with the plain form).  A
+		// limiter must follow one of them throughout, and never fail.
+		mB := &vc09FrozenModel{c: c, persistent: persistent, dynamic: dynamic, keys: map[string]*vc09FrozenKey{}}
+		okA, okB, usedMapped := true, true, false
+		mappedCase := rapid.IntRange(0, 3).Draw(t, "mappedCase") == 0
 
 		ops := []vc09Op{{Kind: "init", Dynamic: dynamic}}
 		hist := func() string {
@@ -392,7 +402,7 @@ func TestVerifC09BackoffFrozen(t *testing.T) {
 			case k == 0:
 				dynamic = vc09DrawPrefixes(t, c.KL4, c.KL6, "dynamic")
 				al.Update(dynamic)
-				m.dynamic = dynamic
+				m.dynamic, mB.dynamic = dynamic, dynamic
 				ops = append(ops, vc09Op{Kind: "update", Dynamic: dynamic})
 			case k == 2:
 				// The allowlist's source fails: the error is reported, nothing is
@@ -414,12 +424,19 @@ func TestVerifC09BackoffFrozen(t *testing.T) {
 				}
 			default:
 				ip := vc09DrawAddr(t, c.KL4, c.KL6, p6)
+				if mappedCase && ip.Is4() && rapid.IntRange(0, 2).Draw(t, "mapped") == 0 {
+					ip = netip.AddrFrom16(ip.As16())
+					usedMapped = true
+					classes["client-ipv4-mapped"] = true
+				}
+
 				qt := vc09DrawQType(t)
 				size := vc09DrawRespSize(t, c.Est)
 				req := vc09Req(qt)
 				key, _, _ := c.keyOf(ip)
 
 				wantDrop, wantAllow, why := m.event(ip, qt)
+				wantDropB, wantAllowB, whyB := mB.event(ip.Unmap(), qt)
 				drop, allow, err := l.IsRateLimited(ctx, req, ip)
 				op := vc09Op{Kind: "req", IP: ip, QType: qt, Size: size, drop: drop, allow: allow}
 				ops = append(ops, op)
@@ -427,7 +444,14 @@ func TestVerifC09BackoffFrozen(t *testing.T) {
 					t.Fatalf("unexpected error %v\n%s", err, hist())
 				}
 
-				if drop != wantDrop || allow != wantAllow {
+				okA = okA && drop == wantDrop && allow == wantAllow
+				okB = okB && drop == wantDropB && allow == wantAllowB
+				if !okA && !okB {
+					if usedMapped {
+						t.Fatalf("query #%d from %s qtype %d: limiter says drop=%t allowlisted=%t; with IPv4-mapped clients taken as IPv6 addresses the statement says drop=%t allowlisted=%t (%s), taken as the IPv4 clients they stand for drop=%t allowlisted=%t (%s); neither reading explains the whole history\n%s",
+							len(ops)-1, ip, qt, drop, allow, wantDrop, wantAllow, why, wantDropB, wantAllowB, whyB, hist())
+					}
+
 					t.Fatalf("query #%d from %s qtype %d: limiter says drop=%t allowlisted=%t, the statement says drop=%t allowlisted=%t (%s)\n%s",
 						len(ops)-1, ip, qt, drop, allow, wantDrop, wantAllow, why, hist())
 				}
@@ -451,7 +475,7 @@ func TestVerifC09BackoffFrozen(t *testing.T) {
 					flooded[key] = true
 					if strings.Contains(why, "in backoff") {
 						classes["dropped-in-backoff"] = true
-					} else if m.keys[key].hits >= int(c.Count) {
+					} else if k := m.keys[key]; k != nil && k.hits >= int(c.Count) {
 						classes["backoff-entered"] = true
 					}
 				}
@@ -501,6 +525,7 @@ func TestVerifC09BackoffFrozen(t *testing.T) {
 					l.CountResponses(ctx, resp, ip)
 					for j := uint64(0); j < extra; j++ {
 						m.event(ip, qt)
+						mB.event(ip.Unmap(), qt)
 					}
 
 					if extra > 0 {
@@ -525,7 +550,17 @@ func TestVerifC09BackoffFrozen(t *testing.T) {
 		}
 
 		sort.Strings(keysSeen)
-		vc09IsolationReplay(t, st, c, persistent, ops, keysSeen, classes, hist)
+		if usedMapped {
+			// Which addresses share a subnet depends on the reading.
+			switch {
+			case okA && !okB:
+				classes["ipv4-mapped-taken-as-ipv6-address"] = true
+			case okB && !okA:
+				classes["ipv4-mapped-taken-as-ipv4-client"] = true
+			}
+		} else {
+			vc09IsolationReplay(t, st, c, persistent, ops, keysSeen, classes, hist)
+		}
 
 		var cl []string
 		for k := range classes {
